@@ -93,10 +93,11 @@ Definition kind_by_label (l : pystr) : option gkind := find (fun k => pystr_eqb 
 
 Definition init_env (k : gkind) : aenv := {| a_vars := k_domain k; a_attrs := k_schema k |}.
 
-(* the raise statement tid of a chain is a per-field message site whose template has the accepted shape *)
+(* the raise statement tid of a chain has a template of the accepted shape (whatever function of the
+   chain it lives in: a helper extracted tomorrow is still covered) *)
 Definition site_templated (s : N * exn) : bool :=
   match find (fun t => N.eqb (t_id t) (fst s)) templates with
-  | Some t => scalar_kind t && tmpl_ok (t_segs t)
+  | Some t => tmpl_ok (t_segs t)
   | None => false
   end.
 
